@@ -18,7 +18,11 @@ Service responses.
 """
 
 import hashlib
+import re
 from mapproxy.util.times import format_httpdate, parse_httpdate, timestamp
+
+
+_invalid_header_chars = re.compile('[\x00-\x08\x0a-\x1f\x7f]')
 
 
 class Response(object):
@@ -150,6 +154,10 @@ class Response(object):
             if type(value) is not str:
                 # for str subclasses like ImageFormat
                 value = str(value)
+            # header values can contain request parameters (e.g. FORMAT, INFO_FORMAT):
+            # no control characters/line breaks and latin-1 only (PEP 3333)
+            value = _invalid_header_chars.sub('', value)
+            value = value.encode('latin-1', 'replace').decode('latin-1')
             headers.append((key, value))
         return headers
 
